@@ -4,7 +4,8 @@ import json,glob,os
 rows=[]
 for f in sorted(glob.glob('/verif/seeded/*/meta.json')):
     m=json.load(open(f))
-    first='missed at first' if 'MISSED' in m.get('note','') else 'caught'
+    n=m.get('note','')
+    first='missed at first' if 'MISSED' in n else ('missed by the owning check' if 'missed by' in n else 'caught')
     rows.append(f"| {m['id']} | {m['breaks_property']} | {m['needs_to_manifest']} | {', '.join(m['detected_by'])} | {first} | {m.get('note','').replace('|','/')} |")
 print("| Seed | Property | Needs to manifest | Now detected by | First run | What happened / what was strengthened |")
 print("|---|---|---|---|---|---|")
